@@ -59,7 +59,7 @@ def plan(tier, seed):
             iters = (8 if r % 3 else 15) if tier == 'quick' else int(pick([10, 20, 50]))
             if kind == 'gcacgmm' and tier == 'quick':
                 iters = 15 if r % 3 else 25
-            cases.append(dict(kind=kind, cls='gauss', K=K, N=N, D=D, lead=lead, spread=float(pick([0.5, 1.0, 1.5, 3.0])), init=pick(['dirichlet:1', 'dirichlet:10', 'blur:0.5', 'dirichlet:0.3']),
+            cases.append(dict(kind=kind, cls='gauss', K=K, N=N, D=D, lead=lead, spread=float(pick([0.5, 1.0, 1.5, 3.0])), offset=float(pick([0, 0, 1e4, 3e6])) if kind in ('gmm', 'gcacgmm') else 0.0, layout=pick(['c', 'c', 'f', 'tview']), init=pick(['dirichlet:1', 'dirichlet:10', 'blur:0.5', 'dirichlet:0.3']),
                               iters=iters, opts=o, rs=[seed, 2, i]))
             i += 1
     return cases
